@@ -328,12 +328,17 @@ func runProxy(sc proxyScen, idx int) (*proxyTrace, error) {
 	}
 	var h *l4proxy.Handler
 	var compiled layer4.Handler
-	if sc.Via == "route" || sc.Via == "route2" || sc.Via == "throttle" || sc.Via == "pp" || sc.Transport == "tls" {
+	if sc.Via == "route" || sc.Via == "route2" || sc.Via == "bigroute" || sc.Via == "throttle" || sc.Via == "pp" || sc.Transport == "tls" {
 		hj := map[string]any{"handler": "proxy"}
 		for k, v := range hcfg {
 			hj[k] = v
 		}
 		routes := []map[string]any{{"match": []map[string]any{{"verif_m0": map[string]any{"at": 10, "v": "Y", "w": "Y"}}}, "handle": []map[string]any{hj}}}
+		if sc.Via == "bigroute" {
+			// a matcher that needs almost the whole matching buffer: the last prefetch round takes the buffer beyond
+			// MaxMatchingBytes (the limit is checked before a chunk is read), and all of it belongs to the stream
+			routes = []map[string]any{{"match": []map[string]any{{"verif_m0": map[string]any{"at": 8000, "v": "Y", "w": "Y"}}}, "handle": []map[string]any{hj}}}
+		}
 		if sc.Via == "throttle" {
 			// the shipped throttle handler without limits in front: the proxy's downstream is a wrapped connection
 			routes = []map[string]any{{"handle": []map[string]any{{"handler": "throttle"}, hj}}}
@@ -500,6 +505,15 @@ func runProxy(sc proxyScen, idx int) (*proxyTrace, error) {
 			if sc.Via == "route2" {
 				// the rest follows only after the matching timeout has passed: it no longer applies to a matched route
 				time.Sleep(450 * time.Millisecond)
+			}
+		}
+		if sc.Via == "bigroute" && len(rest) > 9000 {
+			// 500 bytes, then four segments of one prefetch chunk each: the round that decides reads up to byte 8692
+			for _, k := range []int{500, 2048, 2048, 2048, 2048} {
+				n, _ := cc.Write(rest[:k])
+				csent.Add(int64(n))
+				rest = rest[n:]
+				time.Sleep(25 * time.Millisecond)
 			}
 		}
 		switch sc.Order {
